@@ -4,6 +4,7 @@ package grpcgcp
 
 import (
 	"context"
+	"sync"
 	"time"
 
 	"google.golang.org/grpc"
@@ -124,6 +125,15 @@ func (s *vStream) SendMsg(m interface{}) error {
 	s.note(1)
 	s.sent++
 	s.lastSent = m
+	if vBlockArmed {
+		// this send completes only once the receiver has called RecvMsg on the underlying stream
+		// (flow control: the peer talks first).  Symbolically: the receiver must already have been
+		// told that the stream exists; natively: wait for the underlying RecvMsg.
+		verifNeedsWaiter(vBlockCond, vBlockSince)
+		if vBlockRecvCalled != nil {
+			<-vBlockRecvCalled
+		}
+	}
 	if vConcArmed == 2 {
 		// the receiver goroutine runs while this send is inside the underlying stream
 		vConcArmed = 0
@@ -136,6 +146,9 @@ func (s *vStream) RecvMsg(m interface{}) error {
 	s.note(2)
 	s.recvd++
 	s.lastRecv = m
+	if vBlockArmed && vBlockRecvCalled != nil {
+		close(vBlockRecvCalled)
+	}
 	if vConcArmed == 1 {
 		// the sender goroutine runs while this receive is blocked inside the underlying stream
 		vConcArmed = 0
@@ -364,5 +377,49 @@ func VerifH_streamconc() {
 		verifAssert(vUnder.lastSent == interface{}(outer) && vUnder.lastRecv == interface{}(inner), "C12: message changed on the way to the underlying stream")
 	}
 	verifAssert(vStreamerCalls == 1, "C12: stream not created exactly once")
+	verifObserve("sent", uint64(vUnder.sent))
+}
+
+// RecvMsg is parked before the first SendMsg, and the first send cannot complete on the underlying
+// stream until the receiver reads from it: the receiver must be released as soon as the stream
+// exists, not after the send has returned.  Symbolic run: the real SendMsg runs inline at the
+// receiver's blocking point and the fake's SendMsg demands that the condition variable has been
+// signalled by then.  Native run: two real goroutines; a deadlock shows as a hang.
+var (
+	vBlockArmed      bool
+	vBlockCond       *sync.Cond
+	vBlockSince      int
+	vBlockRecvCalled chan struct{}
+)
+
+func VerifH_streamblock() {
+	vReset()
+	parent := vMkParent()
+	csi, _ := GCPStreamClientInterceptor(parent, &grpc.StreamDesc{}, &grpc.ClientConn{}, "/m", vStreamer)
+	cs := csi.(*gcpClientStream)
+	vStreamerFails = false
+	rmsg, smsg := &verifMsg{}, &verifMsg{}
+	vBlockCond, vBlockSince = cs.cond, verifCondBroadcasts(cs.cond)
+	if verifSymbolic() {
+		vBlockRecvCalled = nil
+		vWaitCS, vWaitMsg, vWaitBlocked, vWaitSender = csi, smsg, 0, true
+		vBlockArmed, vWaitArmed = true, true
+		rerr := csi.RecvMsg(rmsg)
+		vBlockArmed, vWaitArmed = false, false
+		verifAssume(!vLastFailed)
+		verifReach("both returned")
+		verifAssert(rerr == nil && vUnder != nil && vUnder.recvd == 1 && vUnder.sent == 1, "C12: receive-before-send with a send that needs the receiver did not complete")
+	} else {
+		vBlockRecvCalled = make(chan struct{})
+		vBlockArmed = true
+		recvDone := make(chan error, 1)
+		go func() { recvDone <- csi.RecvMsg(rmsg) }()
+		time.Sleep(50 * time.Millisecond) // let the receiver park in cond.Wait
+		serr := csi.SendMsg(smsg)
+		rerr := <-recvDone
+		vBlockArmed = false
+		verifAssert(serr == nil && rerr == nil && vUnder != nil && vUnder.recvd == 1 && vUnder.sent == 1, "C12: receive-before-send with a send that needs the receiver did not complete")
+	}
+	verifAssert(verifLocksFree(), "C12: stream mutex left held")
 	verifObserve("sent", uint64(vUnder.sent))
 }
